@@ -90,6 +90,15 @@ func c14Setup() {
 			"TRUNC": []byte(a.String()[:len(a.String())-40]),
 			// a long record followed by a short one: a locator valid for the first makes the command fail on the second, after partial output
 			"LS": []byte(c14Record("LONG", "acgtacggtacctagcatgcaagtacgtacggtacctagca", false, 3).String() + a.String()),
+			// output above 32 KiB (the inflate window / io.Copy buffer of the cache replay)
+			"BIG": []byte(c14Record("BIGR", strings.Repeat("acgtacggtacctagcatgcaagtacgtacggtacctagca", 1100), false, 3).String()),
+			"BIGFA": []byte(">big one\n" + strings.Repeat("acgtacggtacctagcatgcaagtacgtacggtacctagcattgacgtacgatcgatcggcatgcaacc\n", 900)),
+			// a feature with a repeated qualifier (the value separator of gts query is visible)
+			"Q": []byte(func() string {
+				q := c14Record("RECQ", "acgtacggtacctagcatgcaagt", false, 0)
+				q.Table[1].Props = gts.Props{{"gene", "g1"}, {"note", "x", "second", "third"}, {"db_xref", "a:1", "b:2"}}
+				return q.String()
+			}()),
 			"file:g1": []byte(">g1\nttt\n"), "file:g2": []byte(">g2\nccc\n"),
 			"file:h1": []byte(b.String()), "file:h2": []byte(c14Record("HOST2", "ggggccccaaaatttt", false, 0).String()),
 			"file:q1": []byte(">q\nacg\n"), "file:q2": []byte(">q\ncat\n"),
@@ -260,6 +269,43 @@ func c14Alphabet(thorough bool) []c14Inv {
 	}
 	add([]string{"AFA"}, "reverse")
 	add([]string{"AFA"}, "extract", "2..5")
+	// outputs above 32 KiB
+	add([]string{"BIG", "BIGFA"}, "reverse")
+	add([]string{"BIG"}, "complement", "-F", "fasta")
+	add([]string{"BIG"}, "extract", "5..44000")
+	add([]string{"BIGFA"}, "rotate", "7")
+	// the output format taken from the extension of the -o path (no -F)
+	for _, c := range [][]string{{"extract", "2..5"}, {"reverse"}, {"clear"}, {"delete", "2..5"}, {"rotate", "3"}, {"select", "gene"}, {"insert", "3", "@ttt"}, {"define", "gene", "2..5"}, {"sort"}, {"search", "@acg"}} {
+		add(a, append(append([]string{c[0]}, "-o", "OUT.fasta"), c[1:]...)...)
+		if c[0] != "extract" && c[0] != "reverse" && c[0] != "clear" {
+			add(a, append(append([]string{c[0]}, "-o", "OUT.gb"), c[1:]...)...)
+		}
+	}
+	// option values that collide under a lossy key (same first byte, same prefix, same length, case)
+	q := []string{"Q"}
+	for _, v := range []string{"\u00b7", "\u00a6", ";", ";;"} {
+		add(q, "query", "-t", v)
+		add(q, "query", "-d", v)
+	}
+	add(q, "query", "-n", "note")
+	add(q, "query", "-n", "not")
+	add(q, "query", "-n", "Note")
+	add(a, "define", "-q", "note=xy", "gene", "2..5")
+	add(a, "define", "-q", "Note=x", "gene", "2..5")
+	add(a, "define", "genes", "2..5")
+	add(a, "define", "gene", "2..55")
+	add(a, "search", "-k", "genes", "@acg")
+	add(a, "search", "-q", "note=hit2", "@acg")
+	add(a, "search", "@acgt")
+	add(a, "select", "-s", "both", "gene")
+	add(a, "select", "gen")
+	add(a, "delete", "2..15")
+	add(a, "extract", "2..15")
+	add(a, "insert", "13", "@ttt")
+	add(a, "insert", "3", "@tttt")
+	add(a, "rotate", "13")
+	add(a, "split", "15")
+	add([]string{"M"}, "pick", "2,1")
 	_ = thorough
 	return out
 }
